@@ -3,7 +3,10 @@
 Tie (route C): trackpy.motion.msd / imsd / emsd are run on generated tables
 (integer and dyadic positions, every kind of gap pattern, shuffled rows, odd
 indexes, start frame != 0, mpp, fps, max_lagtime below / at / above the span,
-particles of different lengths).  The observed output is embedded in a Coq term
+particles of different lengths; position columns stored as float64 or -- the
+"integer-stored" family -- as int8 ... uint64 columns whose squares / negative
+displacements are not representable in the storage dtype: the statistic is a
+function of the VALUES of the coordinates, not of the dtype they are stored in).  The observed output is embedded in a Coq term
 and compared inside Coq
   (a) with the executable model Model/MSD.v (same algorithm as the Python:
       stable sort, span+1 == len dispatcher, S1/S2 path, reindex + shifted
@@ -30,7 +33,7 @@ also executed on the generated cases and compared exactly with the model
 (all of the ensembles, a sample of the single trajectories): redundant while the
 proofs hold, it yields a concrete input when a changed source breaks them.
 """
-import json, os, sys, hashlib
+import json, os, sys, hashlib, math
 import numpy as np
 import pandas as pd
 from fractions import Fraction
@@ -245,6 +248,145 @@ def gen_ens_case(rng, tier, fn):
     return dict(kind=fn, rows=rows, ndim=ndim, mpp=mpp, fps=fps, max_lagtime=ml, index=index, tags=sorted(set(kinds)))
 
 
+# --------------------------------------------------------------------------
+# integer-stored positions (pixel-lattice coordinates, integer nanometres, columns downcast to save memory)
+# --------------------------------------------------------------------------
+INT_DTYPES = ['int8', 'uint8', 'int16', 'uint16', 'int32', 'uint32', 'int64', 'uint64']
+INT_CAP = 2 ** 40      # 64-bit columns: |coordinate| <= 2^40, exactly representable as float64 (and in the json replay file)
+
+
+def int_range(dt):
+    ii = np.iinfo(dt)
+    return max(int(ii.min), -INT_CAP), min(int(ii.max), INT_CAP)
+
+
+def sq_limit(dt):
+    """largest v whose square is representable in dtype dt"""
+    return math.isqrt(int(np.iinfo(dt).max))
+
+
+def gen_int_column(rng, n, dt):
+    """n integer coordinates representable in dt; level = where they sit relative to sqrt(max of dt) and to the ends of the range"""
+    lo, hi = int_range(dt)
+    thr = sq_limit(dt)
+    signed = lo < 0
+    level = rng.choice(['small', 'edge', 'edge', 'field', 'field', 'field', 'top', 'bottom' if signed else 'zero'])
+    if level == 'small':          # every square representable (unsigned: negative displacements still are not)
+        base, step = rng.randint(-(thr // 2) if signed else 0, thr // 2), rng.choice([1, 2, 4])
+    elif level == 'edge':         # straddling sqrt(max): some squares representable, some not
+        base, step = thr + rng.randint(-3, 3), rng.choice([1, 2, 4])
+    elif level == 'field':        # ordinary coordinates (a few hundred pixels in int16, tens of thousands of nm in int32, ...)
+        base, step = rng.randint(thr + 1, min(hi, 40 * thr)), rng.choice([1, 4, 9, max(1, thr // 8)])
+    elif level == 'top':
+        base, step = hi - rng.randint(0, 50), rng.choice([1, 4, 9])
+    elif level == 'bottom':       # signed: most negative values, the minimum itself included
+        base, step = lo + rng.randint(0, 50), rng.choice([1, 4, 9])
+    else:                         # unsigned: at the origin
+        base, step = rng.randint(0, 5), rng.choice([1, 3])
+    if signed and level in ('edge', 'field') and rng.random() < 0.3:
+        base = -base
+    style = rng.choice(['walk', 'walk', 'jump', 'ballistic', 'const'])
+    vel = rng.randint(-step, step)
+    cur, out = base, []
+    for i in range(n):
+        if style == 'walk':
+            cur += rng.randint(-step, step)
+        elif style == 'jump':
+            cur = base + rng.randint(-3 * step, 3 * step)
+        elif style == 'ballistic':
+            cur += vel
+        cur = min(hi, max(lo, cur))
+        out.append(cur)
+    return level, out
+
+
+def gen_int_dtypes(rng, ndim):
+    if ndim > 1 and rng.random() < 0.2:      # columns of different integer dtypes: .values takes their common dtype
+        return [rng.choice(INT_DTYPES) for _ in range(ndim)]
+    return [rng.choice(['int8', 'uint8', 'int16', 'int16', 'uint16', 'uint16', 'int32', 'int32', 'uint32', 'int64', 'uint64'])] * ndim
+
+
+def gen_int_positions(rng, n, dtypes):
+    levels, cols = [], []
+    for dt in dtypes:
+        lv, col = gen_int_column(rng, n, dt)
+        levels.append(lv)
+        cols.append(col)
+    return levels, [[float(col[i]) for col in cols] for i in range(n)]
+
+
+def gen_int_msd_case(rng, tier):
+    """single trajectory whose position columns are stored in (narrow) integer dtypes; 2 in 3 gap-free (FFT path)"""
+    ndim = rng.choice([1, 2, 2, 3])
+    kind, fr = gen_frames(rng, tier, rng.choice(['contig', 'contig', 'contig', 'contig', 'gaps', 'onegap', 'two', 'endgap', 'single']))
+    dtypes = gen_int_dtypes(rng, ndim)
+    levels, pos = gen_int_positions(rng, len(fr), dtypes)
+    how, rows = order_rows(rng, list(zip(fr, pos)))
+    span = max(fr) - min(fr)
+    mpp, fps, ml = gen_params(rng, span)
+    if rng.random() < 0.4:
+        mpp = 1          # the Python int 1 ('positions are already in the unit I want'): narrow integer storage times an
+        #                  int stays narrow, so the squares must not be taken in the storage dtype (finding F20)
+    index = rng.choice(['default', 'default', 'shuffled', 'offset'])
+    return dict(kind='msd', rows=rows, ndim=ndim, mpp=mpp, fps=fps, max_lagtime=ml, index=index, dtype=dtypes,
+                tags=['integer-stored', kind, how] + sorted(set('level ' + l for l in levels)))
+
+
+def gen_int_ens_case(rng, tier, fn):
+    ndim = rng.choice([1, 2, 2, 3])
+    npart = rng.randint(1, 4)
+    ids = rng.sample([0, 1, 2, 3, 5, 8, 13, 40, -1], npart)
+    dtypes = gen_int_dtypes(rng, ndim)
+    rows, maxspan, tags = [], 0, set()
+    start0 = rng.choice([0, 0, 2, 11])
+    for pid in ids:
+        k, fr = gen_frames(rng, 'quick', rng.choice(['contig', 'contig', 'contig', 'gaps', 'onegap', 'two']))
+        off = rng.choice([0, 0, 0, 1, 2, 5])
+        fr = [f - fr[0] + start0 + off for f in fr][:16]
+        levels, pos = gen_int_positions(rng, len(fr), dtypes)
+        rows += [(pid, f, p) for f, p in zip(fr, pos)]
+        maxspan = max(maxspan, max(fr) - min(fr))
+        tags.add(k)
+        tags.update('level ' + l for l in levels)
+    rng.shuffle(rows) if rng.random() < 0.6 else None
+    mpp, fps, ml = gen_params(rng, maxspan)
+    if rng.random() < 0.4:
+        mpp = 1
+    index = rng.choice(['default', 'default', 'shuffled', 'frame-named'])
+    return dict(kind=fn, rows=rows, ndim=ndim, mpp=mpp, fps=fps, max_lagtime=ml, index=index, dtype=dtypes,
+                tags=['integer-stored'] + sorted(tags))
+
+
+def int_storage_facts(c):
+    """for the tallies: what about this integer-stored table is not representable in the dtype .values gives the position block"""
+    common_dt = np.result_type(*[np.dtype(d) for d in c['dtype']])
+    facts = ['stored as ' + ('/'.join(sorted(set(c['dtype'])))), 'position block dtype ' + common_dt.name]
+    if common_dt.kind not in 'iu':
+        return facts
+    hi = int(np.iinfo(common_dt).max)
+    groups = {}
+    for r in c['rows']:
+        groups.setdefault(r[0] if c['kind'] != 'msd' else 0, []).append((r[-2], r[-1]))
+    sq = neg = fft = False
+    for g in groups.values():
+        g.sort(key=lambda t: t[0])
+        contiguous = len(g) >= 2 and g[-1][0] - g[0][0] + 1 == len(g) and len(set(f for f, _ in g)) == len(g)
+        if not contiguous:
+            continue
+        fft = True
+        if any(int(v) * int(v) > hi for _, p in g for v in p):
+            sq = True
+        if common_dt.kind == 'u' and any(b[1][k] < a[1][k] for a in g for b in g if b[0] > a[0] for k in range(c['ndim'])):
+            neg = True
+    if fft:
+        facts.append('gap-free trajectory present (FFT path)')
+    if sq:
+        facts.append('gap-free trajectory with a squared coordinate not representable in the position block dtype')
+    if neg:
+        facts.append('gap-free trajectory in unsigned storage with a negative displacement')
+    return facts
+
+
 def exhaustive_gap_cases(rng, maxlen):
     """every subset of frames 0..maxlen-1 that contains 0 (thorough tier)"""
     out = []
@@ -289,6 +431,30 @@ CORPUS = [
     # particles of very different lengths, one with a single lag
     dict(kind='emsd', rows=[(5, f, [float(f % 3), float(f)]) for f in range(10)] + [(2, 3, [0.0, 0.0]), (2, 4, [1.0, 1.0])] + [(9, f, [float(-f), 2.0]) for f in (0, 3, 6, 9)],
          ndim=2, mpp=0.25, fps=2.0, max_lagtime=100, index='default', tags=['corpus mixed lengths']),
+    # integer-stored positions: the value of the statistic must not depend on the storage dtype of the position columns
+    dict(kind='msd', rows=[(7 + i, [float(x), float(y)]) for i, (x, y) in enumerate(zip([500, 503, 501, 506, 509, 504, 511], [300, 299, 305, 304, 310, 312, 309]))],
+         ndim=2, mpp=0.5, fps=4.0, max_lagtime=100, index='default', dtype=['int16', 'int16'], tags=['corpus integer-stored int16 pixel walk']),
+    dict(kind='msd', rows=[(i, [float(x), float(y)]) for i, (x, y) in enumerate(zip([500, 503, 501, 506, 509, 504, 511], [300, 299, 305, 304, 310, 312, 309]))],
+         ndim=2, mpp=100 / 285., fps=24.0, max_lagtime=3, index='default', dtype=['uint16', 'uint16'], tags=['corpus integer-stored uint16 pixel walk']),
+    dict(kind='msd', rows=[(3 + i, [float(x), float(y)]) for i, (x, y) in enumerate(zip([60000, 60310, 59950, 60120, 60555, 60400], [52000, 51800, 52250, 52100, 51700, 51950]))],
+         ndim=2, mpp=0.5, fps=1.0, max_lagtime=100, index='default', dtype=['int32', 'int32'], tags=['corpus integer-stored int32 nanometre walk']),
+    dict(kind='msd', rows=[(i, [float(x), float(y)]) for i, (x, y) in enumerate(zip([500, 503, 501, 506, 509], [300, 299, 305, 304, 310]))], ndim=2, mpp=1, fps=1.0,
+         max_lagtime=100, index='default', dtype=['int16', 'int16'], tags=['corpus F20 int16 positions, integer mpp']),
+    dict(kind='msd', rows=[(i, [float(x)]) for i, x in enumerate([5, 3, 9, 2, 2, 7])], ndim=1, mpp=1.0, fps=1.0, max_lagtime=100, index='default', dtype=['uint8'],
+         tags=['corpus integer-stored uint8 small, negative displacements']),
+    dict(kind='msd', rows=[(i, [float(x), float(y)]) for i, (x, y) in enumerate(zip([-128, -120, -127, -100, -128], [127, 126, 120, 127, 90]))],
+         ndim=2, mpp=2.0, fps=1.0, max_lagtime=100, index='default', dtype=['int8', 'int8'], tags=['corpus integer-stored int8 at the ends of the range']),
+    dict(kind='msd', rows=[(i, [float(x)]) for i, x in enumerate([2 ** 33, 2 ** 33 + 40, 2 ** 33 - 7, 2 ** 33 + 90, 2 ** 33 + 61])], ndim=1, mpp=0.25, fps=1.0, max_lagtime=100,
+         index='default', dtype=['int64'], tags=['corpus integer-stored int64 beyond 2^31.5']),
+    dict(kind='msd', rows=[(i, [float(x), float(y)]) for i, (x, y) in enumerate(zip([500, 503, 501, 506, 509], [70000, 70010, 69990, 70020, 70015]))],
+         ndim=2, mpp=0.5, fps=1.0, max_lagtime=100, index='default', dtype=['int16', 'int32'], tags=['corpus integer-stored mixed int16/int32 columns']),
+    dict(kind='msd', rows=[(f, [float(x), float(y)]) for f, x, y in [(0, 500, 300), (1, 503, 299), (2, 501, 305), (4, 506, 304), (5, 509, 310), (9, 504, 312)]],
+         ndim=2, mpp=0.5, fps=4.0, max_lagtime=100, index='default', dtype=['uint16', 'uint16'], tags=['corpus integer-stored uint16 with gaps']),
+    dict(kind='emsd', rows=[(0, 3 + f, [400.0 + 3 * f * (-1) ** f, 350.0 + f]) for f in range(8)] + [(1, f, [437.0 - 2 * f, 361.0 + 5 * (f % 3)]) for f in range(5)]
+         + [(2, f, [474.0 + f, 372.0 - f]) for f in (5, 6, 8, 9, 13)],
+         ndim=2, mpp=0.5, fps=4.0, max_lagtime=30, index='default', dtype=['uint16', 'uint16'], tags=['corpus integer-stored uint16 ensemble']),
+    dict(kind='imsd', rows=[(0, 3 + f, [52000.0 + 390 * f * (-1) ** f, 45500.0 + 130 * f]) for f in range(8)] + [(1, f, [56810.0 - 260 * f, 46930.0 + 650 * (f % 3)]) for f in range(5)],
+         ndim=2, mpp=0.5, fps=4.0, max_lagtime=30, index='default', dtype=['int32', 'int32'], tags=['corpus integer-stored int32 ensemble']),
 ]
 
 
@@ -305,7 +471,11 @@ def make_df(c, rng_index_seed=0):
              'frame': np.array([r[1] for r in c['rows']], dtype=np.int64)}
         P = [r[2] for r in c['rows']]
     for k, a in enumerate(cols):
-        d[a] = np.array([p[k] for p in P], dtype=float)
+        if c.get('dtype'):      # integer-stored family: the same values, stored in an integer column
+            d[a] = np.array([int(p[k]) for p in P], dtype=c['dtype'][k])
+            assert [float(v) for v in d[a]] == [p[k] for p in P], 'coordinate not representable in ' + c['dtype'][k]
+        else:
+            d[a] = np.array([p[k] for p in P], dtype=float)
     df = pd.DataFrame(d)
     n = len(df)
     if c['index'] == 'shuffled':
@@ -480,6 +650,10 @@ def run_cases(chk, cases, tag='cases'):
         for t in c['tags']:
             chk.tally('tag=' + t)
         chk.tally('index=' + c['index'])
+        if c.get('dtype'):
+            chk.tally('integer-stored: fn=' + c['kind'])
+            for f in int_storage_facts(c):
+                chk.tally('integer-stored: ' + f)
         if status == 'raise':
             chk.tally('implementation raised')
         elif c['kind'] == 'msd':
@@ -497,10 +671,11 @@ def run_cases(chk, cases, tag='cases'):
     res = common.coq_eval_lists(chk.work, IMPORTS, FUNC, terms, shard=24, tag=tag)
     chk.coverage['coq_eval_s'] = round(chk.coverage.get('coq_eval_s', 0) + time.time() - t0, 1)
     for jc, r in zip(kept, res):
-        chk.count((jc['kind'], jc['rows'], jc['mpp'], jc['fps'], jc['max_lagtime']), nontrivial(jc))
+        chk.count((jc['kind'], jc['rows'], jc['mpp'], jc['fps'], jc['max_lagtime']) + ((tuple(jc['dtype']),) if jc.get('dtype') else ()), nontrivial(jc))
         if r != 0:
-            chk.violation('%s:%s' % (jc['kind'], CODES.get(r, r)), '%s(mpp=%s, fps=%s, max_lagtime=%s) on %d rows [%s]: %s' % (
-                jc['kind'], jc['mpp'], jc['fps'], jc['max_lagtime'], len(jc['rows']), ','.join(jc['tags']), CODES.get(r, r)), dict(jc, code=r))
+            chk.violation('%s:%s' % (jc['kind'], CODES.get(r, r)), '%s(mpp=%s, fps=%s, max_lagtime=%s) on %d rows%s [%s]: %s' % (
+                jc['kind'], jc['mpp'], jc['fps'], jc['max_lagtime'], len(jc['rows']),
+                ' (position columns stored as %s)' % '/'.join(jc['dtype']) if jc.get('dtype') else '', ','.join(jc['tags']), CODES.get(r, r)), dict(jc, code=r))
     # (c) the generated functions next to the model: every ensemble, a sample of the single trajectories
     if STATE['gen_ok']:
         n_msd = 0
@@ -545,6 +720,13 @@ def run(chk):
     for k in range(n_ens):
         cases.append(gen_ens_case(rng, chk.tier, 'emsd'))
         cases.append(gen_ens_case(rng, chk.tier, 'imsd'))
+    # integer-stored family (generated after the others: the float64 cases of a seed stay what they were)
+    n_imsd, n_iens = (80, 14) if quick else (800, 150)
+    for k in range(n_imsd):
+        cases.append(gen_int_msd_case(rng, chk.tier))
+    for k in range(n_iens):
+        cases.append(gen_int_ens_case(rng, chk.tier, 'emsd'))
+        cases.append(gen_int_ens_case(rng, chk.tier, 'imsd'))
     if not quick:
         cases += exhaustive_gap_cases(rng, 8)
         chk.coverage['exhaustive_gap_patterns_up_to_span'] = 8
@@ -555,12 +737,21 @@ def run(chk):
                             "(contiguous / random gaps / sparse / two rows / single row / one gap / far last frame; integer, quarter-pixel, large-offset positions; "
                             "1-3 axes; rows sorted, reversed or shuffled; default, permuted, offset or frame-named index; mpp, fps, max_lagtime below/at/above the span; "
                             "6% malformed with a duplicated frame) through msd(detail=True/False), and multi-particle tables through imsd and emsd(detail=True/False); "
+                            "integer-stored family (corpus witnesses + generated, tallied as 'integer-stored: ...'): the same kind of tables with the position columns "
+                            "stored as int8/uint8/int16/uint16/int32/uint32/int64/uint64 columns (one dtype, or 1 in 5 a different integer dtype per column; 64-bit coordinates "
+                            "kept within +-2^40 so that they are exact floats), coordinates placed below / straddling / well above sqrt(max of the dtype), at the top and the "
+                            "bottom of the dtype's range and at the origin (walk, jumps, ballistic, constant), 2 in 3 gap-free (FFT path), the rest with gaps, float mpp; "
+                            "expected value = the exact statistic of the coordinate VALUES (Coq model + declarative spec), so any intermediate computed in the storage "
+                            "dtype (wrapped squares, wrapped unsigned differences) shows as a value difference; "
                             "thorough adds every gap pattern of span <= 8. non-trivial = >= 3 observations (>= 4 for ensembles) and max_lagtime >= 2; distinct by content.")
     chk.assumptions += [
         "np.fft autocorrelation is modelled as the exact sum S2(m) = sum_i r_i r_(i+m) (modelled, not verified); float results are compared with the exact rational value within scale*2^-34, scale = max(1, n*(mpp*max|x|)^2)",
         "pandas primitives by meaning: stable argsort, reindex (raises on duplicate labels), nanmean / groupby.mean skip NaN, sum(skipna=False), groupby('particle') ascending",
         "theorems assume: trajectory non-empty, frames distinct, at least one position column, no NaN coordinates; duplicated-frame inputs are covered by correspondence only",
         "_msd_N (Qian et al.) is taken as the definition of the weight N; not derived",
+        "input representation covered: frame / particle columns int64, position columns float64 or (integer-stored family) numpy integer dtypes, "
+        "mpp and fps Python floats; not exercised: float32 position columns (computed in float32 by the implementation, a-priori bound would differ), "
+        "an integer mpp, narrow integer frame columns, pandas nullable / object dtypes",
         "route T: tools/py2coq_msd.py (trusted, fail-closed; subset, conventions and the list of numpy / pandas primitives in its docstring) and the "
         "vocabulary Model/PyMsd.v (2-D arrays as lists of columns, tables with labelled columns, np.fft.fft/ifft as the exact circular autocorrelation "
         "of the zero-padded signal, reindex / groupby / unstack / where / mul / div by their meaning) are trusted; generated = model is proved for msd, "
@@ -578,6 +769,8 @@ def replay(chk, path):
         print('replay: nothing executable in this replay file (proof/correspondence breakage): see its log field')
         return
     c = dict(kind=r['kind'], ndim=r['ndim'], mpp=r['mpp'], fps=r['fps'], max_lagtime=r['max_lagtime'], index=r['index'], tags=r.get('tags', []))
+    if r.get('dtype'):
+        c['dtype'] = [str(d) for d in r['dtype']]
     if c['kind'] == 'msd':
         c['rows'] = [(int(f), [float(v) for v in p]) for f, p in r['rows']]
     else:
